@@ -115,9 +115,10 @@ where
     ResItem: Unpin + Send,
 {
     pub async fn listen(&mut self) -> Result<()> {
-        let mut attempts = self.backoff_strategy.clone().into_iter();
-
         loop {
+            // Every outage gets the full retry budget
+            let mut attempts = self.backoff_strategy.clone().into_iter();
+
             match self.stream.listen().await {
                 Err(err) if !is_recoverable_error(&err) => {
                     logging::keep_alive::unrecoverable_error(&err);
